@@ -72,7 +72,42 @@ def trace_validate(chk, module, trace_path, describe, timeout=900, env=None):
     e = {"TRACE": trace_path}
     if env:
         e.update(env)
-    r = vlib.tlc(module, workers=1, timeout=timeout, env=e, dfs=True, tag="tv", xmx="4g")
+    # An observation on which the trace specification cannot even be evaluated (an index outside a tree, a pattern
+    # missing from a baseline ...) is not a behaviour of the specification: the record is reported as a violation,
+    # taken out, and the rest of the trace is validated (a crash of TLC for any other reason stays a tool error).
+    unevaluable = []
+    while True:
+        try:
+            r = vlib.tlc(module, workers=1, timeout=timeout, env=e, dfs=True, tag="tv", xmx="4g")
+            break
+        except ToolError as err:
+            msg = getattr(err, "first_error", "")
+            k = getattr(err, "generated", 0)     # states generated = records consumed so far + 1
+            log("trace specification %s stopped after %s states: %s" % (module, k, re.sub(r"\s+", " ", msg)[:200]))
+            if len(unevaluable) >= 8 and k and k <= len(recs):
+                # enough of them: report what was found, the rest of this trace is not examined
+                recs = []
+                break
+            if (not k or "StackOverflow" in str(err) or "OutOfMemory" in str(err)
+                    or not re.search(r"Attempted to|not in the domain|was not an element|is not a (record|function|sequence|set)|non-enumerable|out of bounds", msg)):
+                raise
+            if k < 1 or k > len(recs):
+                raise
+            bad_rec = recs[k - 1]
+            unevaluable.append((bad_rec, re.sub(r"\s+", " ", msg)[:160]))
+            recs = recs[:k - 1] + recs[k:]
+            if not recs:
+                break
+            trace_path = trace_path + ".rest"
+            vlib.write_ndjson(trace_path, recs)
+            e["TRACE"] = trace_path
+    for bad_rec, why in unevaluable:
+        sig = "unevaluable:%s:%s" % (module, bad_rec.get("k", ""))
+        chk.violate(sig, "the recorded observation is outside what %s can evaluate (%s): %s" % (module, why, json.dumps(bad_rec)[:300]),
+                    {"trace_record": bad_rec, "trace_spec": module, "env": {k: v for k, v in (env or {}).items() if not os.path.exists(str(v))},
+                     "env_files": {k: open(v).read() for k, v in (env or {}).items() if os.path.isfile(str(v)) and os.path.getsize(v) < 400000}})
+    if not recs:
+        return {"n": 0, "bad": []}
     res = r.records.get("TVRESULT")
     if not res:
         raise ToolError("trace specification %s printed no result\n%s" % (module, r.out[-2000:]))
